@@ -205,7 +205,7 @@ func ruleC20(c *Ctx, r *Report) {
 	r.Check(passwordStores >= 1, "C20-R1", "reaches-digest-password", "-", fmt.Sprintf("%d store(s) of the secret into digest.Transport.Password", passwordStores), "the private key never reaches the digest transport (wiring lost)")
 
 	// ---- R2: digest.Transport objects are used only as the Transport of an http.Client
-	r.Floor("C20-R2", 2, "two digest.Transport composites")
+	r.Floor("C20-R2", 1, "digest.Transport composites (2 today)")
 	for _, f := range c.SortedFuncs() {
 		allInstrs(f, func(i ssa.Instruction) {
 			al, ok := i.(*ssa.Alloc)
@@ -222,6 +222,10 @@ func ruleC20(c *Ctx, r *Report) {
 							continue
 						}
 						_, fv := fieldOf(x)
+						if fn := fieldName(fv); fn != "Password" && fn != "Username" {
+							// the inner round tripper and the other settings are not credentials
+							continue
+						}
 						bad = append(bad, fmt.Sprintf("field %s read/escaped at %s", fieldName(fv), c.InstrPos(r2)))
 					}
 				case *ssa.MakeInterface:
